@@ -274,7 +274,25 @@ struct Family {
     size: u64,
 }
 
+struct Sweep {
+    bases: Vec<String>,
+    ks: Vec<String>,
+    ops: Vec<Op>,
+}
+
+impl Sweep {
+    fn len(&self) -> u64 {
+        (self.bases.len() * self.ks.len() * self.ops.len()) as u64
+    }
+    fn tree(&self, idx: u64) -> T {
+        let d = decode(idx, &[self.ops.len() as u64, self.bases.len() as u64, self.ks.len() as u64]);
+        T::Bin(self.ops[d[0] as usize], Box::new(mk_leaf(&self.bases[d[1] as usize])), Box::new(mk_leaf(&self.ks[d[2] as usize])))
+    }
+}
+
 pub struct C01 {
+    sweep: Sweep,
+    sweep_start: u64,
     tier: String,
     fams: Vec<Family>,
     total: u64,
@@ -364,7 +382,20 @@ fn notations() -> Vec<String> {
     v
 }
 
+/// Every integer exponent / shift count in -130..=130 (machine-word boundaries 31/32/63/64/127/128
+/// included) so that a fast path for "small" counts cannot hide an off-by-one.
+fn int_sweep() -> Vec<String> {
+    (-130i64..=130).map(|k| k.to_string()).collect()
+}
+
+fn sweep_bases() -> Vec<String> {
+    ["1", "3", "-3", "0.5", "10", "-7|3"].iter().map(|s| s.to_string()).collect()
+}
+
 fn mk_leaf(s: &str) -> T {
+    if let Some((n, d)) = s.split_once('|') {
+        return T::Bin(Op::Pipe, Box::new(mk_leaf(n)), Box::new(T::Lit(d.to_string())));
+    }
     if let Some(r) = s.strip_prefix('-') {
         T::Neg(Box::new(T::Lit(r.to_string())))
     } else {
@@ -403,8 +434,13 @@ impl C01 {
             add(1, &OPS14, notations()[..40].to_vec(), false);
             add(2, &OPS13, leaves_core(), true);
         }
-        let total = fams.iter().map(|f| f.size).sum();
+        // exponent / shift-count sweep: `a op k` for every integer k in -130..=130
+        let total0: u64 = fams.iter().map(|f| f.size).sum();
+        let sweep = Sweep { bases: sweep_bases(), ks: int_sweep(), ops: vec![Op::Shl, Op::Shr, Op::Pow, Op::StarStar, Op::Mod, Op::And, Op::Or, Op::Xor] };
+        let total = total0 + sweep.len();
         C01 {
+            sweep,
+            sweep_start: total0,
             tier: tier.to_string(),
             fams,
             total,
@@ -413,6 +449,9 @@ impl C01 {
     }
 
     fn tree(&self, mut idx: u64) -> T {
+        if idx >= self.sweep_start {
+            return self.sweep.tree(idx - self.sweep_start);
+        }
         for f in &self.fams {
             if idx >= f.size {
                 idx -= f.size;
@@ -495,7 +534,7 @@ impl Space for C01 {
         Meta {
             id: "C01",
             level: "exploration",
-            rule: "every expression tree with <=2 (quick) / <=3 (thorough) binary operator nodes over 14 operators (+ - * / | juxtaposition ^ ** mod << >> and or xor), optional unary sign, and a boundary-value literal alphabet (all notations: decimal/fraction/exponent/digit separators/hex/octal/binary; 2^64+-1, 2^128+1, 1e30, 2^4096+1, 1e-40); each rendered fully parenthesised AND minimally parenthesised per the manual's precedence table, evaluated by rink and by an independent BigRational evaluator. Non-trivial = the reference defines a value or an undefined-case (not skipped as fractional-exponent/expensive); distinct = by rendered text".into(),
+            rule: "every expression tree with <=2 (quick) / <=3 (thorough) binary operator nodes over 14 operators (+ - * / | juxtaposition ^ ** mod << >> and or xor), optional unary sign, plus the sweep `a op k` for 8 operators x 6 bases x every integer k in -130..130 (word-size boundaries 31/32/63/64/127/128), and a boundary-value literal alphabet (all notations: decimal/fraction/exponent/digit separators/hex/octal/binary; 2^64+-1, 2^128+1, 1e30, 2^4096+1, 1e-40); each rendered fully parenthesised AND minimally parenthesised per the manual's precedence table, evaluated by rink and by an independent BigRational evaluator. Non-trivial = the reference defines a value or an undefined-case (not skipped as fractional-exponent/expensive); distinct = by rendered text".into(),
             assumptions: vec![
                 "num-bigint/num-rational arithmetic is correct (shared trusted base)".into(),
                 "explicit `*` associates with `/` at one level, left to right (as the repository's own parser tests pin)".into(),
